@@ -290,6 +290,42 @@ fn case(g: &mut Gen, ctx: &mut Ctx) -> CaseResult {
             expect_eq("create_ciphertext", &calls_v[0].1, &want)?;
         }
         ctx.class("builder-helper");
+        // the built message, its protected header edited through the public fields afterwards: the
+        // cipher gets the additional data of the edited header
+        if (carrier != 2 || recipient_ctx_ok) && h.rest.iter().all(|(l, _)| !matches!(l, coset::Label::Int(i) if (77_000..77_100).contains(i))) {
+            let mut seen2: Vec<u8> = vec![];
+            let p2 = match carrier {
+                0 => {
+                    let mut m = CoseEncryptBuilder::new().protected(h.clone()).create_ciphertext(&plaintext, &aad, |_, _| vec![1]).build();
+                    let p2 = edit_built_protected(g, &mut m.protected)?;
+                    let _: Result<Vec<u8>, ()> = m.decrypt(&aad, |_, a| {
+                        seen2 = a.to_vec();
+                        Ok(vec![])
+                    });
+                    p2
+                }
+                1 => {
+                    let mut m = CoseEncrypt0Builder::new().protected(h.clone()).create_ciphertext(&plaintext, &aad, |_, _| vec![1]).build();
+                    let p2 = edit_built_protected(g, &mut m.protected)?;
+                    let _: Result<Vec<u8>, ()> = m.decrypt(&aad, |_, a| {
+                        seen2 = a.to_vec();
+                        Ok(vec![])
+                    });
+                    p2
+                }
+                _ => {
+                    let mut m = CoseRecipientBuilder::new().protected(h.clone()).create_ciphertext(CTXS[ci], &plaintext, &aad, |_, _| vec![1]).build();
+                    let p2 = edit_built_protected(g, &mut m.protected)?;
+                    let _: Result<Vec<u8>, ()> = m.decrypt(CTXS[ci], &aad, |_, a| {
+                        seen2 = a.to_vec();
+                        Ok(vec![])
+                    });
+                    p2
+                }
+            };
+            expect_eq("message built through the builder, protected header edited afterwards: decrypt", &seen2, &ref_enc_structure(cname, &p2, &aad))?;
+            ctx.class("built-then-edited");
+        }
     }
     // injectivity
     let mut aad2 = aad.clone();
